@@ -115,6 +115,9 @@ func (poc *PolicySorter) OnUpdate(update api.Update) (dirty bool) {
 				poc.sortedTiers.Delete(oldKey)
 				tierInfo.Valid = false
 				tierInfo.Order = nil
+				// A tier that is only kept alive by the policies still naming it looks exactly
+				// like one that was never seen: no order and no default action.
+				tierInfo.DefaultAction = ""
 				if len(tierInfo.Policies) == 0 {
 					delete(poc.tiers, tierName)
 				} else {
